@@ -60,6 +60,20 @@ def run(pid, rep, tier, seed, replay=None, n_quick=600, n_thorough=12000):
             valids += extra
     cases = netprops.corpus(pid) + [v.line for v in valids]
     vlib.correspond(rep, cases, oracle=want_oracle(valids, rep), trivial=netprops.trivial, tag=tag)
+    # optional family hook: pairs of exchanges that carry the SAME reply over two transports (e.g. a large reply as an
+    # uncompressed and as a compressed split): both must decode, to the same response
+    for f in fams:
+        fmod = importlib.import_module("props.families." + f)
+        if not hasattr(fmod, "transport_pairs"):
+            continue
+        pairs = fmod.transport_pairs([v for v in valids if v.fam == f and not getattr(v, "variant", False)], rnd, tier)
+        lines = [l for a, b, _ in pairs for l in (a, b)]
+        model, impl, _ = vlib.correspond(rep, lines, oracle=netprops.crash_oracle, trivial=netprops.trivial, tag=tag)
+        for a, b, what in pairs:
+            ra, rb = vlib.result_of(impl.get(a.split(" ", 1)[0], "")), vlib.result_of(impl.get(b.split(" ", 1)[0], ""))
+            rep.count("transport-pairs:" + f)
+            if not ra.startswith("OK") or ra != rb:
+                rep.oracle_failures.append((f"transport-dependence:{f}", f"{what}: {ra[:160]} over the first transport, {rb[:160]} over the second", b[:2000], rb[:300]))
     hostile = []
     # variants are not mutated: their model-side oracle tables (e.g. bzip2: compressed -> reply) say nothing about
     # what the real external decoder does with a corrupted stream
